@@ -139,7 +139,7 @@ func c13ParseCase(op string) c13Case {
 	case "allow":
 		c.authenticated = true
 	case "ledger":
-		c.authenticated = c.us && c.pw && c.pv == "ok" // user name u and password p are presented
+		c.authenticated = c.us && c.pw && (c.pv == "ok" || c.pv == "ok4") // user name u and password p are presented
 	}
 	return c
 }
@@ -151,7 +151,11 @@ func (c c13Case) bytes() []byte {
 	if c.pv == "none" {
 		p.WillFlag, p.UserFlag, p.PassFlag = false, false, false
 	}
-	b := ref.Encode(p, c.ver, ref.EncOpts{RawConnectFlags: &fl})
+	layout := c.ver
+	if c.pv == "ok4" {
+		layout = 4 // a version the broker does not know, in the MQTT 3.1.1 layout (no property sections)
+	}
+	b := ref.Encode(p, layout, ref.EncOpts{RawConnectFlags: &fl})
 	switch c.pv {
 	case "short":
 		// remove the last announced section
@@ -177,7 +181,7 @@ func c13Cases(arg string) []string {
 	names := []string{"MQTT", "MQIsdp", "MQTX", "E"}
 	for _, hook := range []string{"none", "noauth", "allow", "ledger", "ledgerq"} {
 		for _, name := range names {
-			for ver := 3; ver <= 6; ver++ {
+			for ver := 3; ver <= 7; ver++ {
 				okNV := (name == "MQIsdp" && ver == 3) || (name == "MQTT" && (ver == 4 || ver == 5))
 				for fl := 0; fl < 256; fl++ {
 					n := 0
@@ -187,11 +191,14 @@ func c13Cases(arg string) []string {
 						}
 					}
 					for _, cid := range []string{"a", "E"} {
-						for _, pv := range []string{"ok", "short", "none", "extra"} {
+						for _, pv := range []string{"ok", "short", "none", "extra", "ok4"} {
 							if (pv == "short" && n == 0) || (pv == "none" && n < 2) {
 								continue // identical to ok / short
 							}
-							if !full && !okNV && !(hook == "allow" && cid == "a" && pv == "ok") {
+							if pv == "ok4" && (okNV || ver < 5) {
+								continue // the 3.1.1 layout with a version byte of 5 or 6: only for unknown name/version pairs
+							}
+							if !full && !okNV && !(hook == "allow" && cid == "a" && (pv == "ok" || pv == "ok4")) {
 								continue // quick: wrong name/version only in their plainest form
 							}
 							out = append(out, fmt.Sprintf("c:%s:%s:%d:%02x:%s:%s", hook, name, ver, fl, cid, pv))
